@@ -26,18 +26,19 @@ type jOutcome struct {
 }
 
 type jDiscRun struct {
-	ID       int        `json:"id"`
-	Class    string     `json:"class"` // exact | teardown | few | many | byz
-	Teardown bool       `json:"teardown"` // every member stops handling messages for the topic once its Synchronize is through
-	Members  []uint16   `json:"members"`
-	Running  []uint16   `json:"running"`
-	Byz      []uint16   `json:"byz"`
-	ByzKind  []string   `json:"byz_kind"`
-	Expected int        `json:"expected"`
-	Fifo     bool       `json:"fifo"`
-	Outcomes []jOutcome `json:"outcomes"`
-	Ms       int64      `json:"ms"`
-	Messages int        `json:"messages"`
+	ID       int         `json:"id"`
+	Class    string      `json:"class"`    // exact | teardown | few | many | twins | byz
+	Late     [][2]uint16 `json:"late"`     // links (from, to) whose messages are held back
+	Teardown bool        `json:"teardown"` // every member stops handling messages for the topic once its Synchronize is through
+	Members  []uint16    `json:"members"`
+	Running  []uint16    `json:"running"`
+	Byz      []uint16    `json:"byz"`
+	ByzKind  []string    `json:"byz_kind"`
+	Expected int         `json:"expected"`
+	Fifo     bool        `json:"fifo"`
+	Outcomes []jOutcome  `json:"outcomes"`
+	Ms       int64       `json:"ms"`
+	Messages int         `json:"messages"`
 }
 
 type routedMsg struct {
@@ -82,6 +83,7 @@ type discWorld struct {
 	boxes   map[uint16]*inbox
 	mu      sync.Mutex
 	count   int
+	hold    map[[2]uint16]time.Duration // links that deliver late
 }
 
 func (w *discWorld) send(from, to uint16, data []byte) {
@@ -89,7 +91,15 @@ func (w *discWorld) send(from, to uint16, data []byte) {
 		w.mu.Lock()
 		w.count++
 		w.mu.Unlock()
-		b.put(routedMsg{from: from, data: append([]byte{}, data...)})
+		m := routedMsg{from: from, data: append([]byte{}, data...)}
+		if d, late := w.hold[[2]uint16{from, to}]; late {
+			go func() {
+				time.Sleep(d)
+				b.put(m)
+			}()
+			return
+		}
+		b.put(m)
 	}
 }
 
@@ -103,9 +113,10 @@ func (w *discWorld) broadcast(from uint16, data []byte) {
 
 func runDiscWhole(r *prng, id int) *jDiscRun {
 	n := 2 + r.intn(5)
-	members := r.distinctIDs(n, r.chance(1, 4))
+	members := discIDs(r, n, r.chance(1, 5))
 	run := &jDiscRun{ID: id, Members: append([]uint16{}, members...), Fifo: r.chance(2, 3)}
-	class := []string{"exact", "teardown", "teardown", "few", "many", "byz", "byz"}[r.intn(7)]
+	class := []string{"exact", "teardown", "teardown", "few", "many", "twins", "twins", "byz", "byz"}[r.intn(9)]
+	var late [][2]uint16
 	perm := append([]uint16{}, members...)
 	for i := len(perm) - 1; i > 0; i-- {
 		j := r.intn(i + 1)
@@ -142,10 +153,38 @@ func runDiscWhole(r *prng, id int) *jDiscRun {
 			run.Expected = 2 + r.intn(k-2)
 			timeout = 300 * time.Millisecond
 		}
+	case "twins":
+		// four honest members a, b, x, y with x and y of ONE encoding class, everybody expects three; the links y->a,
+		// x->b and x<->y deliver late: for a while a knows {a,b,x} and b knows {a,b,y}.  Nobody may complete with a
+		// list that another completing member of it does not share; with the links in, there are too many members.
+		x := discIDs(r, 1, false)[0]
+		for discClassOf(x) == "other" && !r.chance(1, 6) {
+			x = discIDs(r, 4, false)[r.intn(4)]
+		}
+		y := discTwinOf(r, x)
+		for y == x {
+			y = discTwinOf(r, x)
+		}
+		var ab []uint16
+		for len(ab) < 2 {
+			c := r.id16()
+			if c != x && c != y && (len(ab) == 0 || ab[0] != c) {
+				ab = append(ab, c)
+			}
+		}
+		members = []uint16{ab[0], ab[1], x, y}
+		n = 4
+		run.Members = append([]uint16{}, members...)
+		run.Running = append([]uint16{}, members...)
+		run.Expected = 3
+		run.Fifo = true
+		late = [][2]uint16{{y, ab[0]}, {x, ab[1]}, {x, y}, {y, x}}
+		run.Late = late
+		timeout = 250 * time.Millisecond
 	case "byz":
 		if n < 3 {
 			n = 3
-			members = r.distinctIDs(3, false)
+			members = discIDs(r, 3, false)
 			run.Members = append([]uint16{}, members...)
 			perm = append([]uint16{}, members...)
 		}
@@ -166,7 +205,10 @@ func runDiscWhole(r *prng, id int) *jDiscRun {
 	}
 	run.Class = class
 	topic := r.bytes(16)
-	w := &discWorld{topic: topic, members: run.Members, boxes: map[uint16]*inbox{}}
+	w := &discWorld{topic: topic, members: run.Members, boxes: map[uint16]*inbox{}, hold: map[[2]uint16]time.Duration{}}
+	for _, l := range late {
+		w.hold[l] = time.Duration(60+r.intn(60)) * time.Millisecond
+	}
 	for _, x := range run.Members {
 		w.boxes[x] = &inbox{wake: make(chan struct{}, 1)}
 	}
